@@ -3,11 +3,12 @@
 use super::common::*;
 use crate::ast::*;
 use crate::gen::Pipe;
-use crate::log::K;
+use crate::log::{catch, clear_local_cbs, set_local_cb, K};
 use crate::report::{Cfg, Report};
 use crate::value::*;
 use crate::vtime::MS;
 use crate::world::*;
+use rxrust::observer::Observer;
 use serde_json::json;
 
 #[derive(Clone, Debug, PartialEq, Eq, Hash)]
@@ -331,6 +332,53 @@ pub fn run(cfg: &Cfg, rep: &mut Report) {
     crate::conc::set_mode(prev);
   }
 
+  // feedback loops: the consumer's callback produces the next source item (the classic use of
+  // observe_on / delay to break synchronous recursion); every item must still arrive, in order
+  if cfg.only_case.is_none() || cfg.only_case.as_deref().map_or(false, |c| c.starts_with("feedback")) {
+    let shapes: Vec<Vec<Op>> = vec![
+      vec![Op::ObserveOn],
+      vec![Op::Delay(0)],
+      vec![Op::Delay(1)],
+      vec![Op::ObserveOn, Op::Map(MapF::Add(0))],
+      vec![Op::Map(MapF::Add(0)), Op::ObserveOn, Op::Tap(71)],
+      vec![Op::ObserveOn, Op::ObserveOn],
+      vec![Op::Delay(1), Op::ObserveOn],
+      vec![Op::ObserveOn, Op::Filter(Pred::True), Op::Delay(0)],
+    ];
+    let mut idx = 0usize;
+    for ops in &shapes {
+      for flavor in [Flavor::Local, Flavor::Threads, Flavor::LocalPool] {
+        for n in 1..=cfg.n(4, 8) {
+          for terminal in [0u8, 1, 2] {
+            idx += 1;
+            if !cfg.mine(idx) {
+              continue;
+            }
+            let id = format!("feedback:{}", idx);
+            if !cfg.wants(&id) {
+              continue;
+            }
+            rep.evaluations += 1;
+            rep.count("feedback_loop_cases", 1);
+            let (want, got) = feedback_case(flavor, ops, n, terminal);
+            rep.events += n as u64 + 1;
+            if n >= 2 {
+              rep.nontrivial.insert(hash64(&("feedback", ops, flavor, n, terminal)));
+            }
+            match got {
+              Err(p) => rep.violation("panic", &format!("{}[feedback loop]", Chain::new(Src::Hot(0), ops.clone()).api_names().into_iter().filter(|n| *n != "subject").collect::<Vec<_>>().join("+")), &id, json!({"ops": format!("{:?}", ops), "flavor": format!("{:?}", flavor), "panic": p})),
+              Ok(out) if out != want => {
+                let name = Chain::new(Src::Hot(0), ops.clone()).api_names().into_iter().filter(|n| *n != "subject").collect::<Vec<_>>().join("+");
+                rep.violation("items_or_terminal_lost", &format!("{}[feedback loop]", name), &id, json!({"ops": format!("{:?}", ops), "flavor": format!("{:?}", flavor), "expected": jn(&want), "observed": jn(&out)}));
+              }
+              _ => {}
+            }
+          }
+        }
+      }
+    }
+  }
+
   // thread part: the producer on one thread, the operator's tasks on a FIFO
   // worker thread (a single-threaded pool running on its own thread)
   let n = cfg.n(8_000, 400_000);
@@ -344,4 +392,70 @@ pub fn run(cfg: &Cfg, rep: &mut Report) {
     let f = fams[r.below(2)];
     super::thr::random_scen(r, f)
   }, &|o, s| super::thr::moved_oracle(o, s));
+}
+
+/// the subscriber's callback feeds the source: item x makes it push x+1 (up to
+/// n items); when the loop has run dry the source completes / fails / stays open from outside
+fn feedback_case(flavor: Flavor, ops: &[Op], n: usize, terminal: u8) -> (Vec<N>, Result<Vec<N>, String>) {
+  use std::rc::Rc;
+  let last = 100 + n as i64 - 1;
+  let mut want: Vec<N> = (100..=last).map(|x| N::Next(V::I(x))).collect();
+  match terminal {
+    1 => want.push(N::Complete),
+    2 => want.push(N::Err(7)),
+    _ => {}
+  }
+  let got = catch(|| {
+    let mut w = World::new(flavor, 1);
+    w.timer_ties_fifo = true;
+    let chain = Chain::new(Src::Hot(0), ops.to_vec());
+    let (hl, ht) = (w.l.hot[0].clone(), w.t.hot[0].clone());
+    let threads = flavor == Flavor::Threads;
+    set_local_cb(
+      1,
+      Rc::new(move |nn: &N| {
+        if let N::Next(v) = nn {
+          let x = v.int();
+          // only items are produced from inside the callback: a terminal issued re-entrantly
+          // makes the subject ask the (currently borrowed) observers whether they are
+          // finished, which is outside what the library supports and outside the property
+          let act = if x < last { Some(N::Next(V::I(x + 1))) } else { None };
+          if let Some(a) = act {
+            if threads {
+              let mut h = ht.clone();
+              match a {
+                N::Next(v) => h.next(v),
+                N::Complete => h.complete(),
+                N::Err(e) => h.error(e),
+              }
+            } else {
+              let mut h = hl.clone();
+              match a {
+                N::Next(v) => h.next(v),
+                N::Complete => h.complete(),
+                N::Err(e) => h.error(e),
+              }
+            }
+          }
+        }
+      }),
+    );
+    w.subscribe(&chain, 1);
+    w.inject(0, N::Next(V::I(100)));
+    let mut rng = Rng::new(5);
+    w.drain(Policy::Fifo, u64::MAX / 4, &mut rng);
+    // the loop has run dry: the source terminates from outside
+    match terminal {
+      1 => w.inject(0, N::Complete),
+      2 => w.inject(0, N::Err(7)),
+      _ => {}
+    }
+    w.drain(Policy::Fifo, u64::MAX / 4, &mut rng);
+    let out = w.log.notes(1);
+    clear_local_cbs();
+    w.teardown();
+    out
+  });
+  clear_local_cbs();
+  (want, got)
 }
